@@ -127,6 +127,8 @@ type c20Input struct {
 	loader int
 	data   []byte
 	class  string
+	fam    string // growth family (same text shape at several depths), "" none
+	depth  int
 }
 
 type c20Result struct {
@@ -413,6 +415,52 @@ func C20(rep *ev.Reporter, tier string) {
 		add(c20JSONFact, "nesting", []byte(strings.Repeat("[", d)+strings.Repeat("]", d)))
 		add(c20JSONFact, "nesting", []byte(strings.Repeat(`{"a":`, d)+"1"+strings.Repeat("}", d)))
 	}
+	// growth families: every recursive atom production (selector, member, method call, and their mixes) repeated on
+	// every kind of head (variable, call, string constant, bare name), in a condition and in an action; nested
+	// selectors, call arguments, brackets. Each shape at depths 12 and 16 (and 22): besides the absolute bounds, the
+	// cost may grow at most polynomially (cubic: x2.4 from depth 12 to 16; a doubling per level would be x16).
+	type shape struct {
+		name string
+		mk   func(d int) string
+	}
+	var shapes []shape
+	for _, head := range []string{"F.A", "F.G()", "G()", `"s"`, "F"} {
+		for _, step := range []string{"[0]", ".P", ".M()", "[0].P", ".M()[0]", `["k"].M(1)`} {
+			head, step := head, step
+			shapes = append(shapes, shape{"when:" + head + "+" + step, func(d int) string {
+				return "rule r { when " + head + strings.Repeat(step, d) + " == 1 then F.I = 1; }"
+			}})
+			shapes = append(shapes, shape{"then:" + head + "+" + step, func(d int) string {
+				return "rule r { when F.B then F.I = " + head + strings.Repeat(step, d) + "; }"
+			}})
+		}
+	}
+	shapes = append(shapes,
+		shape{"selector-in-selector", func(d int) string {
+			return "rule r { when F.A" + strings.Repeat("[F.A", d) + "[0]" + strings.Repeat("]", d) + " == 1 then F.I = 1; }"
+		}},
+		shape{"call-in-argument", func(d int) string {
+			return "rule r { when " + strings.Repeat("F.G(", d) + "1" + strings.Repeat(")", d) + " == 1 then F.I = 1; }"
+		}},
+		shape{"call-in-second-argument", func(d int) string {
+			return "rule r { when " + strings.Repeat("F.G(1, ", d) + "1" + strings.Repeat(")", d) + " == 1 then F.I = 1; }"
+		}},
+		shape{"negated-bracket", func(d int) string {
+			return "rule r { when " + strings.Repeat("!(", d) + "F.B" + strings.Repeat(")", d) + " then F.I = 1; }"
+		}},
+		shape{"bracketed-sum", func(d int) string {
+			return "rule r { when " + strings.Repeat("(F.I + ", d) + "1" + strings.Repeat(")", d) + " == 1 then F.I = 1; }"
+		}},
+		shape{"bracketed-and", func(d int) string {
+			return "rule r { when " + strings.Repeat("(F.B && ", d) + "F.B" + strings.Repeat(")", d) + " then F.I = 1; }"
+		}},
+	)
+	growthDepths := []int{12, 16, 22}
+	for _, sh := range shapes {
+		for _, d := range growthDepths {
+			inputs = append(inputs, c20Input{loader: c20GRL, data: []byte(sh.mk(d)), class: "nesting-atom", fam: sh.name, depth: d})
+		}
+	}
 	total := len(inputs)
 	// run sharded over worker processes
 	nw := runtime.NumCPU()
@@ -528,6 +576,40 @@ func C20(rep *ev.Reporter, tier string) {
 				map[string]interface{}{"case": id, "loader": c20LoaderName[inp.loader], "class": inp.class, "input_hex": fmt.Sprintf("%x", inp.data)})
 		}
 	}
+	// growth oracle
+	famAlloc := map[string]map[int]uint64{}
+	famIdx := map[string]int{}
+	for i, inp := range inputs {
+		if inp.fam == "" || !done[i] {
+			continue
+		}
+		k := strings.SplitN(results[i].status, ":", 2)[0]
+		if k != "ok" && k != "error" {
+			continue
+		}
+		if famAlloc[inp.fam] == nil {
+			famAlloc[inp.fam] = map[int]uint64{}
+		}
+		famAlloc[inp.fam][inp.depth] = results[i].alloc
+		if inp.depth == 16 {
+			famIdx[inp.fam] = i
+		}
+	}
+	var growthPairs int64
+	for fam, m := range famAlloc {
+		a12, ok1 := m[12]
+		a16, ok2 := m[16]
+		if !ok1 || !ok2 || a12 == 0 {
+			continue
+		}
+		growthPairs++
+		if a16 > 4*a12 && a16 > 4<<20 {
+			i := famIdx[fam]
+			rep.Violation("C20:super-polynomial-cost:grl-text:"+fam, fmt.Sprintf("the cost of loading grows faster than any modest polynomial in the nesting depth: %d bytes allocated at depth 12, %d at depth 16 (x%.1f; cubic growth would be x2.4, a doubling per level x16)\n  input at depth 16 (quoted): %q", a12, a16, float64(a16)/float64(a12), trunc(string(inputs[i].data), 200)),
+				map[string]interface{}{"case": fmt.Sprintf("c20/%d", i), "loader": "grl-text", "class": "nesting-atom", "input_hex": fmt.Sprintf("%x", inputs[i].data)})
+		}
+	}
+	rep.Coverage["growth_families_compared"] = growthPairs
 	for i := 0; i < total; i += total/5 + 1 {
 		rep.Sample(map[string]interface{}{"case": fmt.Sprintf("c20/%d", i), "loader": c20LoaderName[inputs[i].loader], "class": inputs[i].class, "input": fmt.Sprintf("%q", trunc(string(inputs[i].data), 120)), "result": results[i].status})
 	}
@@ -543,7 +625,7 @@ func C20(rep *ev.Reporter, tier string) {
 		rep.Exhaustive = false
 		rep.Coverage["caps_hit"] = fmt.Sprintf("time budget: %d of %d inputs run", ran, total)
 	}
-	rep.Coverage["rule"] = "four loaders (GRL text via the builder - into a fresh knowledge base and onto two knowledge bases that came out of the binary loader, one of them without any variable -, JSON rule via JSONResource+builder, JSON fact via DataContext.AddJSON, binary stream via LoadKnowledgeBaseFromReader), bounded-exhaustive input spaces, no sampling: every byte string of length <= 2 and every length-3 string over a 24-byte structural alphabet; for each valid seed every single-point mutation (every bit flip, every byte set to 00/7f/80/ff, truncation at every offset), every field start of a binary seed (boundaries from a tracing writer) overwritten with 13 boundary values, every node reference (AstID text) of a binary seed replaced by every other id of the stream (dangling, duplicated and cyclic references), splices of seed pairs, boundary numbers in every numeric position, nesting depth 10..2000; for the JSON loaders every string value of a seed extended at either end by each of 18 tails (CR, VT, FF, NBSP, line separator, repeated ';', comment openers, NUL, backslash) and every value of a seed (at every path) replaced by each of 11 alien values (null, true, numbers, empty and null-holding containers, 1e999) and every token string of length <= 4 over a 13-token JSON alphabet. Each input runs in a child process under RLIMIT_AS (ulimit -v 4 GiB): the worker must survive (no escaped panic, no runtime abort), return a value or an error, allocate at most 8 MiB + 2048 bytes per input byte (runtime.MemStats.TotalAlloc delta) and finish within the hang horizon. Every input is non-trivial (it exercises a loader end to end)."
+	rep.Coverage["rule"] = "four loaders (GRL text via the builder - into a fresh knowledge base and onto two knowledge bases that came out of the binary loader, one of them without any variable -, JSON rule via JSONResource+builder, JSON fact via DataContext.AddJSON, binary stream via LoadKnowledgeBaseFromReader), bounded-exhaustive input spaces, no sampling: every byte string of length <= 2 and every length-3 string over a 24-byte structural alphabet; for each valid seed every single-point mutation (every bit flip, every byte set to 00/7f/80/ff, truncation at every offset), every field start of a binary seed (boundaries from a tracing writer) overwritten with 13 boundary values, every node reference (AstID text) of a binary seed replaced by every other id of the stream (dangling, duplicated and cyclic references), splices of seed pairs, boundary numbers in every numeric position, nesting depth 10..2000 (brackets, negations, operator chains, statement lists, and every recursive atom production - selector, member, method call and their mixes - repeated on every kind of head: variable, call, string constant, bare name; nested selectors and call arguments - each shape at depths 12, 16, 22 with a growth oracle: allocation at depth 16 at most 4x that at depth 12); for the JSON loaders every string value of a seed extended at either end by each of 18 tails (CR, VT, FF, NBSP, line separator, repeated ';', comment openers, NUL, backslash) and every value of a seed (at every path) replaced by each of 11 alien values (null, true, numbers, empty and null-holding containers, 1e999) and every token string of length <= 4 over a 13-token JSON alphabet. Each input runs in a child process under RLIMIT_AS (ulimit -v 4 GiB): the worker must survive (no escaped panic, no runtime abort), return a value or an error, allocate at most 8 MiB + 2048 bytes per input byte (runtime.MemStats.TotalAlloc delta) and finish within the hang horizon. Every input is non-trivial (it exercises a loader end to end)."
 	rep.Assumptions = append(rep.Assumptions, "uniformly random long inputs are sampling and outside this family; hang detection uses a wall clock (30 s for inputs that take microseconds, confirmed twice in isolation)")
 }
 
